@@ -1002,6 +1002,13 @@ impl CodegenContext {
                 ..
             } => {
                 if let Some(loop_count) = self.evaluate_expression_as_i64(expr, true)? {
+                    // More iterations than there are bytes in the address space cannot assemble to anything
+                    if loop_count > 0x10000 {
+                        return Err(Diagnostic::error()
+                            .with_message(format!("loop count {} is too large", loop_count))
+                            .with_labels(vec![expr.span.to_label()])
+                            .into());
+                    }
                     for index in 0..loop_count {
                         self.with_scope(loop_scope, Some(block), |s| {
                             s.add_symbol(
